@@ -190,20 +190,13 @@ Proof.
 Qed.
 
 (* ---------- xt recognises its own JSON output ---------- *)
-From XtModel Require Import InputModel FormatsModel DetectModel SelfDetectProofs.
+From XtModel Require Import InputModel FormatsModel DetectModel SelfDetectProofs MsgpackTrialProofs.
 
 (* the two trials that run before YAML, as xt runs them on a slice: the input is
    handed over as it is *)
-Definition msgpack_slice_trial (utf8 : bytes -> bool) : trial :=
-  {| t_ops := [OPrefix 0];
-     t_verdict := fun obs => match obs with [_; ObsPrefix (Ok p)] => Ok (msgpack_matches utf8 p) | _ => Ok false end |}.
-
 Definition json_slice_trial : trial :=
   {| t_ops := [OPrefix 0];
      t_verdict := fun obs => match obs with [_; ObsPrefix (Ok p)] => Ok (json_trial_slice p) | _ => Ok false end |}.
-
-Lemma msgpack_slice_trial_verdict utf8 d : slice_verdict d (msgpack_slice_trial utf8) = Ok (msgpack_matches utf8 d).
-Proof. reflexivity. Qed.
 
 Lemma json_slice_trial_verdict d : slice_verdict d json_slice_trial = Ok (json_trial_slice d).
 Proof. reflexivity. Qed.
